@@ -422,6 +422,41 @@ pub fn run(ctx: &mut Ctx) {
     // strings through the lexical parser
     let mut sink = |ctx: &mut Ctx, f: Fmt, s: &str, family: &'static str| probe_string(ctx, f, s, family);
     hostile_workload(ctx, 0xC05, 800_000, 16_000_000, &mut sink);
+    // every string of up to 3 characters over a small alphabet of the format's own identifier-like
+    // keyword characters, letters, digits and brackets (Han: copula / prefix / bracket characters are
+    // identifier characters), through both entry points
+    {
+        let mut idx = 0usize;
+        for f in ALL_FMT {
+            let e = f.e();
+            let mut alphabet: Vec<char> = vec!['a', 'Z', '1', '-', '_', ' ', '\n'];
+            for kw in keywords(e) {
+                for c in kw.chars().take(2) {
+                    if !alphabet.contains(&c) && alphabet.len() < 40 {
+                        alphabet.push(c);
+                    }
+                }
+            }
+            let n = alphabet.len();
+            for len in 1..=3usize {
+                for code in 0..n.pow(len as u32) {
+                    idx += 1;
+                    if !ctx.mine(idx) {
+                        continue;
+                    }
+                    let mut c = code;
+                    let s: String = (0..len)
+                        .map(|_| {
+                            let ch = alphabet[c % n];
+                            c /= n;
+                            ch
+                        })
+                        .collect();
+                    probe_string(ctx, f, &s, "all-short-strings-over-keyword-characters");
+                }
+            }
+        }
+    }
     // arbitrary lexical values through fold
     let h = HostileLex::new();
     let mut rng = ctx.rng(0xC05F);
@@ -451,6 +486,31 @@ pub fn run(ctx: &mut Ctx) {
         }
         if i % 4 == 0 {
             fold_parts(ctx, &h, &mut rng, folder, v);
+        }
+    }
+    // extreme arities and depths through fold: 255..1000 components (valid and not), chains 300 deep
+    {
+        let mut idx = 0usize;
+        for (vi, f) in ALL_FMT.iter().enumerate() {
+            let v = &h.vocabs[vi];
+            for n in [255usize, 256, 257, 300, 1000] {
+                for (ci, c) in v.connecters.iter().enumerate().filter(|(ci, _)| n < 1000 || ci % 4 == 0) {
+                    idx += 1;
+                    if !ctx.mine(idx) {
+                        continue;
+                    }
+                    let _ = ci;
+                    let good: Vec<LexTerm> = (0..n).map(|i| LexTerm::new_atom("", format!("w{}", i))).collect();
+                    let bad: Vec<LexTerm> = (0..n).map(|i| LexTerm::new_atom(if i % 2 == 0 { "#" } else { "" }, if i % 3 == 0 { String::new() } else { format!("w{}", i) })).collect();
+                    for (kids, what) in [(good, "valid"), (bad, "invalid")] {
+                        let x = LexNarsese::Term(LexTerm::new_compound(c.clone(), kids.clone()));
+                        fold_probe(ctx, &x, *f, "extreme-arity");
+                        let (l, r) = v.set_brackets[n % v.set_brackets.len()].clone();
+                        fold_probe(ctx, &LexNarsese::Term(LexTerm::new_set(l, kids, r)), *f, "extreme-arity");
+                        let _ = what;
+                    }
+                }
+            }
         }
     }
     ctx.report.note(
